@@ -205,7 +205,7 @@ def check_allowlist(found):
 
 def write_replay(pid, failures, r, ov, witness=None):
     os.makedirs(os.path.join(VERIF, "replays"), exist_ok=True)
-    key = engine.sha(pid + "|" + "|".join(sorted(f.ident() for f in failures)))[:12]
+    key = engine.sha(pid + "|" + "|".join(sorted(f.ident() for f in failures)) + "|" + json.dumps(witness, sort_keys=True))[:12]
     path = os.path.join(VERIF, "replays", f"{pid}-{key}.json")
     doc = {
         "property": pid,
@@ -216,6 +216,8 @@ def write_replay(pid, failures, r, ov, witness=None):
         "repo_src_sha256": {rel: engine.sha(fo.src) for rel, fo in ov.files.items()},
         "how_to_replay": f"./check {pid} --replay {path}   (re-runs Verus on /repo's current tree and reports whether the named obligations still fail; with a witness, also re-executes the input against the real code)",
     }
+    if witness:
+        doc["kind"] = "failing-input"
     with open(path, "w", encoding="utf-8") as f:
         json.dump(doc, f, indent=1, ensure_ascii=False)
     return path
@@ -257,93 +259,108 @@ def decide(pid, P, tier, seed, sc, ov, r, fn_ranges, lt, t0, replay):
     ev_path = os.path.join(VERIF, "evidence", f"{pid}.json")
     os.makedirs(os.path.dirname(ev_path), exist_ok=True)
     notes = []
+    status = "proved"          # proved | own_failed | undecided
+    failures, units, new_own = [], {}, []
     if ov.problems:
+        status = "undecided"
         for p in ov.problems:
-            log("UNDECIDED anchor-lost:", p)
-        write_evidence(ev_path, pid, tier, seed, ov, None, [], [], t0, notes + ["anchor lost: " + "; ".join(ov.problems)], undecided=True)
-        return 2
-    for l in ov.lost:
-        log("note: optional proof hint not placed:", l)
-    if r.timed_out or r.front_end_error:
-        why = "verus timed out" if r.timed_out else "verus front end rejected the annotated crate"
-        log("UNDECIDED", why)
-        for d in r.diags[:5]:
-            log("   ", d.get("message", "")[:300])
-        write_evidence(ev_path, pid, tier, seed, ov, r, [], [], t0, notes + [why], undecided=True)
-        return 2
-    bad = check_allowlist(scan_assumptions(ov))
-    if bad:
-        for b in bad:
-            log("UNDECIDED assumption scan:", b)
-        return 2
-    failures = [Failure(d, ov, fn_ranges, lt) for d in r.diags]
-    rlimit_fail = [f for f in failures if "rlimit" in f.message.lower() or "resource limit" in f.message.lower()]
-    units = {u: v for u, v in r.units.items() if unit_matches(u, P["units"])}
-    if not units:
-        log("UNDECIDED vacuous: no verification unit matched for", pid)
-        return 2
-    failed_units = [u for u, v in units.items() if not v["success"]]
-    own = [f for f in failures if pid in f.props and f not in rlimit_fail]
-    known = load_known()
-    known_hit = []
-    new_own = []
-    for f in own:
-        hit = None
-        for k in known:
-            if k["property"] == pid and k["site"] == f"{f.site_file}:{f.site_fn}" and (k["obligation"] in f.message or any(k["obligation"] in c[1] for c in f.clauses)):
-                hit = k
-        if hit:
-            known_hit.append((f, hit))
-        else:
-            new_own.append(f)
-    for f, k in known_hit:
-        log(f"KNOWN-FINDING: property={pid} {k['site']} {k['obligation']} :: {k['text']}")
+            notes.append("anchor lost: " + p)
+    elif r.timed_out or r.front_end_error:
+        status = "undecided"
+        notes.append("verus timed out" if r.timed_out else "verus front end rejected the annotated crate: " + "; ".join(d.get("message", "")[:160] for d in r.diags[:3]))
+    else:
+        bad = check_allowlist(scan_assumptions(ov))
+        if bad:
+            for b in bad:
+                log("UNDECIDED assumption scan:", b)
+            return 2
+        failures = [Failure(d, ov, fn_ranges, lt) for d in r.diags]
+        rlimit_fail = [f for f in failures if "rlimit" in f.message.lower() or "resource limit" in f.message.lower()]
+        units = {u: v for u, v in r.units.items() if unit_matches(u, P["units"])}
+        if not units:
+            log("UNDECIDED vacuous: no verification unit matched for", pid)
+            return 2
+        failed_units = [u for u, v in units.items() if not v["success"]]
+        own = [f for f in failures if pid in f.props and f not in rlimit_fail]
+        known = load_known()
+        for f in own:
+            hit = None
+            for k in known:
+                if k["property"] == pid and k["site"] == f"{f.site_file}:{f.site_fn}" and (k["obligation"] in f.message or any(k["obligation"] in c[1] for c in f.clauses)):
+                    hit = k
+            if hit:
+                log(f"KNOWN-FINDING: property={pid} {hit['site']} {hit['obligation']} :: {hit['text']}")
+            else:
+                new_own.append(f)
+        lost_fns = {l.split(":")[1] for l in ov.lost if l.count(":") >= 2}
+        if new_own and all(f.site_fn in lost_fns for f in new_own):
+            status = "undecided"
+            notes.append("a proof hint of the failing function could not be placed (text anchor lost): " + "; ".join(f.ident() for f in new_own))
+            new_own = []
+        elif new_own:
+            status = "own_failed"
+        elif failed_units or rlimit_fail:
+            status = "undecided"
+            notes.append("no own obligation of %s failed, but units its proof depends on did not verify: %s" % (pid, ", ".join(failed_units[:6])))
+            for f in [f for f in failures if f not in own][:6]:
+                notes.append("   failed: " + f.ident() + " tags=" + ",".join(sorted(f.tags)))
     if replay:
         return do_replay(pid, replay, failures)
-    if new_own:
-        lost_fns = {l.split(":")[1] for l in ov.lost if ":" in l}
-        if any(f.site_fn in lost_fns for f in new_own) and all(f.site_fn in lost_fns for f in new_own):
-            log("UNDECIDED a proof hint of the failing function could not be placed (text anchor lost); failing obligations:")
-            for f in new_own:
-                log("   ", f.ident())
-            write_evidence(ev_path, pid, tier, seed, ov, r, failures, units, t0, notes + ["text anchor lost in failing function"], undecided=True)
-            return 2
-        witness = None
-        try:
-            import witness as wit
-            witness = wit.search(pid, new_own, tier)
-        except ImportError:
-            witness = None
-        path = write_replay(pid, new_own, r, ov, witness)
+    for l in ov.lost:
+        log("note: optional proof hint not placed:", l)
+    # bounded search on the real code: witness for a failed obligation, stand-in for what the verifier cannot reach
+    import witness as wit
+    bounded = None
+    try:
+        bounded = wit.search(pid, tier, seed)
+    finally:
+        wit.close()
+    extra = {}
+    if bounded is not None:
+        st = bounded.get("stats") or {}
+        extra["bounded_standin"] = {
+            "label": "BOUNDED - executes the real library on generated inputs against statement-level oracles; never counted as proved",
+            "evaluations": st.get("evaluations"), "distinct_nontrivial": st.get("distinct_nontrivial"), "rule": st.get("rule"),
+            "sample": st.get("sample"), "exhaustive_within_bound": str(st.get("rule", "")).startswith("EXHAUSTIVE"),
+            "wall_s": bounded.get("wall_s"), "error": bounded.get("error"), "witness_found": bounded.get("witness") is not None,
+        }
+    w = bounded.get("witness") if bounded else None
+    if w is not None:
+        path = write_replay(pid, new_own, r, ov, w)
         for f in new_own:
             log("failed obligation:", f.ident())
-        write_evidence(ev_path, pid, tier, seed, ov, r, failures, units, t0, notes, violations=len(new_own))
-        tail = "" if witness else " no-failing-input-found"
-        log(f"VIOLATION property={pid} replay={path}{tail}")
+        log("failing input (re-executed against the real code):", json.dumps({k: v for k, v in w.items() if k not in ("docs_hex",)}, ensure_ascii=False)[:1500])
+        write_evidence(ev_path, pid, tier, seed, ov, r, failures, units, t0, notes, violations=max(1, len(new_own)), extra=extra)
+        log(f"VIOLATION property={pid} replay={path}")
         return 1
-    dep = [f for f in failures if f not in own]
-    dep_rel = [f for f in dep if f.site_fn is not None or f.in_spec_module]
-    if failed_units or rlimit_fail:
-        log(f"UNDECIDED property={pid}: no own obligation of {pid} failed, but units its proof depends on did not verify:")
-        for u in failed_units:
-            log("    unit", u)
-        for f in dep_rel[:10]:
-            log("    obligation", f.ident(), "tags=", sorted(f.tags))
-        write_evidence(ev_path, pid, tier, seed, ov, r, failures, units, t0, notes + ["dependency chain broken"], undecided=True)
+    if status == "own_failed":
+        path = write_replay(pid, new_own, r, ov, None)
+        for f in new_own:
+            log("failed obligation:", f.ident())
+        write_evidence(ev_path, pid, tier, seed, ov, r, failures, units, t0, notes, violations=len(new_own), extra=extra)
+        log(f"VIOLATION property={pid} replay={path} no-failing-input-found")
+        return 1
+    if status == "undecided":
+        for n in notes:
+            log("UNDECIDED", n)
+        st = (bounded or {}).get("stats") or {}
+        log(f"UNDECIDED property={pid}: proof not obtained; the bounded search on the real code ({st.get('evaluations')} inputs) found no violation")
+        write_evidence(ev_path, pid, tier, seed, ov, r, failures, units, t0, notes, undecided=True, extra=extra)
         return 2
     # thorough extras
-    extra_cov = {}
     if tier == "thorough":
         import thorough
         ok, extra_cov, msgs = thorough.run(pid, P, ov, r, seed)
+        extra.update(extra_cov)
         for m in msgs:
             log(m)
         if not ok:
-            write_evidence(ev_path, pid, tier, seed, ov, r, failures, units, t0, notes + msgs, undecided=True, extra=extra_cov)
+            write_evidence(ev_path, pid, tier, seed, ov, r, failures, units, t0, notes + msgs, undecided=True, extra=extra)
             return 2
-    write_evidence(ev_path, pid, tier, seed, ov, r, failures, units, t0, notes, extra=extra_cov)
+    write_evidence(ev_path, pid, tier, seed, ov, r, failures, units, t0, notes, extra=extra)
     n_ok = sum(1 for v in units.values() if v["success"])
-    log(f"OK property={pid} tier={tier}: {n_ok}/{len(units)} verification units discharged by verus/z3 ({r.smt_ms} ms solver, {r.wall_s:.1f} s wall), {len(collect_clauses(ov, pid))} own clauses")
+    st = (bounded or {}).get("stats") or {}
+    log(f"OK property={pid} tier={tier}: {n_ok}/{len(units)} verification units discharged by verus/z3 ({r.smt_ms} ms solver, {r.wall_s:.1f} s wall), {len(collect_clauses(ov, pid))} own clauses; bounded stand-in: {st.get('evaluations')} inputs, no violation")
     return 0
 
 
@@ -357,9 +374,13 @@ def do_replay(pid, path, failures):
         try:
             import witness as wit
             ok = wit.replay(doc["witness"])
-            log("witness replay:", "property violated by the recorded input" if not ok else "recorded input no longer violates the property")
-            if not ok:
+            log("witness replay:", ("property VIOLATED by the recorded input: " + ok[1]) if ok[0] else "the recorded input no longer violates the property")
+            if ok[0]:
                 rc = 1
+                log(f"VIOLATION property={pid} replay={path}")
+            wit.close()
+            if not want:
+                return rc
         except ImportError:
             pass
     for w in want:
@@ -375,7 +396,7 @@ def write_evidence(path, pid, tier, seed, ov, r, failures, units, t0, notes, und
     clauses = collect_clauses(ov, pid)
     units = units or {}
     n_ok = sum(1 for v in units.values() if v["success"])
-    fuc = functions_under_contract(ov, r) if ov and not ov.problems else []
+    fuc = functions_under_contract(ov, r if (r and not r.front_end_error) else None) if ov and not ov.problems else []
     cov = {
         "obligations": max(len(units), 0),
         "discharged": n_ok,
